@@ -196,11 +196,13 @@ PROPS = {
         "assumptions": [
             "(A) 'intact' = the record denotes (spec.Abs) what it denoted when delivered; banks are closed only by the harness, once each",
             "(B) the oracle never depends on which bank the sync.Pool hands back; double Close is a caller error and is not generated",
+            "(C) a bank whose handle the application dropped without closing it has not been closed; finalizers are given 200 microseconds after each forced collection",
         ],
         "units": [
             regress("C10"),
             {"run": "^TestC10A$", "quick": 3000, "thorough": 8000},
             {"run": "^TestC10B$", "quick": 3000, "thorough": 8000},
+            {"run": "^TestC10C$", "quick": 500, "thorough": 3000},
         ],
     },
     "C11": {
